@@ -17,6 +17,9 @@ RULE = ('exhaustive: chains of 1..5 conditions (if / elif.. / optional else; '
         'bodies.  Plus Hypothesis-generated nestings.  Non-trivial: >= 2 '
         'conditions with >= 1 callable, or a body re-referencing a callable '
         'condition.  Enumerated chains are distinct by construction.')
+RULE += (
+         'Also: the chosen body re-references the condition from '
+         'Python expressions. ')
 ASSUMPTIONS = ['reference interpreter vf/model.py is trusted',
                'dtml-call of an undefined name is not generated (the '
                'statement does not say what it does)']
